@@ -259,13 +259,13 @@ def axiom_gate():
 # --------------------------------------------------------------------------
 # extracted model programs
 # --------------------------------------------------------------------------
-def model_build(area, deps):
+def model_build(area, deps, driver="line"):
     """Extract extract/X_<area>.v (which Requires compiled theories) and build with extract/d_<area>.ml."""
     ok, text, tr = coq_make(deps)
     if not all(ok.values()):
         raise BuildError("model theories failed to build: %s\n%s" % ([t for t in ok if not ok[t]], text[-3000:]))
     xv = os.path.join(ROOT, "extract", "X_%s.v" % area)
-    dml = os.path.join(ROOT, "extract", "d_%s.ml" % area)
+    dml = os.path.join(ROOT, "extract", "d_%s.ml" % driver)
     h = hashlib.sha256()
     for t in deps:
         h.update(read(os.path.join(COQ, t), "rb"))
